@@ -99,3 +99,26 @@ func VerifReleaseTwin() {
 	c.consume() // the delivery goroutine observes the stop and runs its exit path
 	symapi.Assert(rec.closed == 0, "twin-stopped-consumer-not-closed")
 }
+
+// VerifReplacedStreamRelease: a stream that was replaced by a new publisher still releases
+// its consumers when its own publisher goes away (Unregist) or when its idle task fires.
+func VerifReplacedStreamRelease() {
+	a, b := verifStream("/a"), verifStream("/a")
+	rec := &verifConsumer{}
+	Regist(a)
+	cid := a.StartConsumeNoGopCache(rec, RTPPacket, "viewer of a")
+	Regist(b) // a is retired but keeps serving its viewer
+	symapi.Assert(Get("/a") == b && a.status == StreamOK && a.ConsumerCount() == 1, "retired-stream-keeps-its-consumers")
+	if symapi.Bool("publisherLeaves") {
+		Unregist(a)
+	} else {
+		a.StopConsume(cid)
+		(&runZeroConsumersClose{s: a, d: 0, closedStats: StreamReplaced}).run()
+	}
+	symapi.Assert(a.status != StreamOK, "retired-stream-closed")
+	symapi.Assert(a.ConsumerCount() == 0, "retired-stream-consumer-count-zero")
+	c := verifConsumption(a, cid)
+	symapi.Assert(c == nil, "viewer-detached")
+	symapi.Assert(Get("/a") == b && b.status == StreamOK, "successor-untouched")
+	symapi.Reach("end")
+}
